@@ -267,6 +267,13 @@ fn plan_inner(prop: &str, tier: &str) -> Option<Plan> {
                 for (n, l, sh) in mb {
                     jobs.extend(sharded(prop, "csweep", f, tier, json!({"n": n, "max_l": l, "mutate": true}), sh));
                 }
+                if prop == "C12" {
+                    let fb: Vec<(usize, usize, usize)> = if tier == "quick" { vec![(2, 3, 1), (3, 3, 4)] } else { vec![(2, 4, 2), (3, 4, 16), (4, 3, 16)] };
+                    for (n, l, sh) in fb {
+                        jobs.extend(sharded(prop, "csweep", f, tier, json!({"n": n, "max_l": l, "formats": true}), sh));
+                    }
+                    jobs.extend(sharded(prop, "csweep", f, tier, json!({"n": 0, "max_l": 0, "large": if tier == "quick" { 12 } else { 24 }, "formats": true}), 4));
+                }
             }
             Some(Plan {
                 jobs,
@@ -274,7 +281,7 @@ fn plan_inner(prop: &str, tier: &str) -> Option<Plan> {
                 rule: if prop == "C11" {
                     "every canonical directed adjacency shape with all nodes members x two insertion orders x every container iteration order (first hash seed producing each of the n! orders, via the seed hook): scc() must be a partition of the members equal to the reference mutual-reachability classes; plus the large structured families (chains, cycles with chords, fan-out / fan-in with one extra edge at every position, 2..20 nodes quick / 2..40 thorough, three hash seeds). Reuse: scc() is called twice on every container, and (jobs with mutate) once more after every single connect / disconnect / isolate and every move of one edge applied through the node handles, against the components of the graph as it then is. nontrivial = cases with >= 2 edges".into()
                 } else {
-                    "every canonical adjacency shape of each container type x two insertion orders x every container iteration order x {JSON, CBOR}: serialise with the real code, deserialise into a graph with a different hash seed, compare keys, node values, per-node outgoing edge lists (directed: order too; undirected: multiset) and the mirror/symmetry invariant of the result; plus the large structured families (2..20 nodes quick / 2..40 thorough, three hash seeds, JSON and CBOR). Reuse: every container is serialised twice, and (jobs with mutate) once more after every single connect / disconnect / isolate and every move of one edge applied through the node handles. nontrivial = cases with >= 1 edge".into()
+                    "every canonical adjacency shape of each container type x two insertion orders x every container iteration order x {JSON, CBOR}: serialise with the real code, deserialise into a graph with a different hash seed, compare keys, node values, per-node outgoing edge lists (directed: order too; undirected: multiset) and the mirror/symmetry invariant of the result; plus the large structured families (2..20 nodes quick / 2..40 thorough, three hash seeds, JSON and CBOR). Reuse: every container is serialised twice, and (jobs with mutate) once more after every single connect / disconnect / isolate and every move of one edge applied through the node handles. Other encodings and entry points of the two serde implementations (packed CBOR, self-described CBOR, CBOR and JSON through io readers / writers, serde_cbor::Value, serde_json::Value, pretty JSON, JSON bytes) on every small shape and the large families with one seed. nontrivial = cases with >= 1 edge".into()
                 },
                 bounds: json!({"(nodes, max_edges, shards)": bounds}),
                 exhaustive: true,
